@@ -102,7 +102,8 @@ def decode_cause(batch, sid, x, doc, fmt, which):
     """why a document the schema accepts fails to decode"""
     from checks import c08
     if x[which] == "panic":
-        return "panic:" + ("+".join(s for s in c08.code_shapes(batch, sid) if "array" in s) or "other")
+        # when the package has both panicking shapes the driver cannot tell which one fired: name the first
+        return "panic:" + ([s for s in c08.code_shapes(batch, sid) if "array" in s] or ["other"])[0]
     if which == "strict":
         c = c08.null_required_cause(doc, x.get("spaths"), fmt)
         if c:
